@@ -20,6 +20,7 @@ for d in sorted(glob.glob(os.path.join(V, 'seeded', '*'))):
 tab = ['| seed | change | needs to manifest | quick checks that exit 1 | target check catches it |', '|---|---|---|---|---|'] + rows
 p = os.path.join(V, 'DESIGN.md')
 s = open(p).read()
-s = re.sub(r'<!-- SEEDED-TABLE-BEGIN -->.*<!-- SEEDED-TABLE-END -->', '<!-- SEEDED-TABLE-BEGIN -->\n' + '\n'.join(tab) + '\n<!-- SEEDED-TABLE-END -->', s, flags=re.S)
+new = '<!-- SEEDED-TABLE-BEGIN -->\n' + '\n'.join(tab) + '\n<!-- SEEDED-TABLE-END -->'
+s = re.sub(r'<!-- SEEDED-TABLE-BEGIN -->.*<!-- SEEDED-TABLE-END -->', lambda m: new, s, flags=re.S)
 open(p, 'w').write(s)
 print(len(rows), 'seeds tabulated')
